@@ -588,6 +588,19 @@ def r10_cursor_to_world(rule, root=None):
             continue
         params = {A.binding_name(p_["pat"]) for p_ in f["sig"]["inputs"] if "pat" in p_}
         for c in A.find(f["body"], "MethodCall"):
+            if c["method"] == "screen_to_world" and str(A.ftxt(c["recv"])) == "self" and len(c["args"]) == 1:
+                # the canvas's own helper: it must be handed the cursor itself
+                cur_ = set(params)
+                for b_name, b_src, _node in (A.enclosing_binders(f["body"], c) or []):
+                    mm_ = re.match(r"\(?&?(\w+)", b_src)
+                    if mm_ and mm_.group(1) in params:
+                        cur_.add(b_name)
+                n += 1
+                if A.ident(A.strip(c["args"][0])) in cur_:
+                    rule.ok("%s::%s hands the cursor itself to screen_to_world" % (ow, f["name"]), file=GUI, line=c["ln"])
+                else:
+                    rule.bad("%s|%s|cursor-map|argument" % (ow, f["name"]), "%s::%s converts `%s` instead of the cursor position it was given" % (ow, f["name"], str(A.ftxt(c["args"][0]))[:70]), A.where(GUI, c))
+                continue
             if c["method"] != "transform_point" or len(c["args"]) != 1:
                 continue
             n += 1
@@ -630,5 +643,5 @@ def run(ctx):
     ctx.guarded(r, r_components_roundtrip)
     r = ctx.rule("R9", "a canvas remembers only its vetted state; cursor positions go from screen to world through screen_to_world() itself", 4)
     ctx.guarded(r, r_canvas_state)
-    r = ctx.rule("R10", "a cursor pixel reaches world space only through self.image_size.transform_point of the cursor's own coordinates", 4)
+    r = ctx.rule("R10", "a cursor pixel reaches world space only through self.image_size.transform_point of the cursor's own coordinates", 7)
     ctx.guarded(r, r10_cursor_to_world)
